@@ -7,7 +7,7 @@ from ..core import HEADER, CASE_TYPE, CHECK, MODEL_VIEW, SHARD, CASE_TIMEOUT, ob
 ID = "C02"
 THEOREMS = ["C02_phase_agreement", "C02_label_pass_is_run", "C02_label_binding", "C02_size_agree",
             "C02_opcode_size_agree", "C02_fail_not_shift", "C02_phase_check", "C02_label_final_value",
-            "C02_trace_oracle", "C02_first_pass_visits",
+            "C02_trace_oracle", "C02_first_pass_visits", "C02_label_final_value_scoped",
             "C02_text_scan", "C02_text_parse", "C02_opcode_test", "C02_engine", "C02_label_then_data", "C02_data_then_label"]
 PROOF_HEADER = "From A816 Require Import Properties.C02 Properties.C02Text."
 
